@@ -180,4 +180,6 @@ func init() {
 		"	if slices.Contains(j.approvals, req.Key) {", "	if slices.Contains(j.approvals, req.Key) && req.Key > highestNodeID(j.Candidates()) {", "C11.R7.verdict")
 	mut("C11", "out-of-range keys are only rejected when the juror has approvals on record", "aspen/internal/cluster/pledge/pledge.go",
 		"	if req.Key <= highestNodeID(j.Candidates()) {", "	if req.Key <= highestNodeID(j.Candidates()) && len(j.approvals) > 0 {", "C11.R7.verdict")
+	mut("C12", "a failed sync is taken for an empty answer when no digests were sent", "aspen/internal/cluster/gossip/gossip.go",
+		"	ack, err := g.TransportClient.Send(ctx, addr, sync)\n	if err != nil {", "	ack, err := g.TransportClient.Send(ctx, addr, sync)\n	if err != nil && len(sync.Digests) > 0 {", "C12.ERR")
 }
